@@ -115,5 +115,6 @@ def histories(draw, typed=False, max_ops=40, explicit_ids=True, fresh=False, kin
     if typed:
         kinds = [k for k in kinds]  # typed trees refuse move; still generated (must be refused)
     one = st.one_of(*[strat[k] for k in kinds])
-    ops = draw(st.lists(one, min_size=1, max_size=max_ops))
+    min_ops = draw(st.sampled_from([1, max(1, max_ops // 8), max(1, max_ops // 3)]))
+    ops = draw(st.lists(one, min_size=min_ops, max_size=max_ops))
     return {"spec": spec, "spec2": spec2, "typed": typed, "ops": ops, "profile": prof}
